@@ -20,7 +20,7 @@ mvars == <<l, mu, st, prem>>
 
 MInit == /\ l = 1 /\ mu = LC!Mu0 /\ st = LC!St0 /\ prem = [c \in LC!ClauseNames |-> 0] /\ MarkInit
 
-Letter(e) == [m |-> e.l.m, mt |-> e.l.mt, ip |-> e.l.ip, sp |-> e.l.sp]
+Letter(e) == [m |-> e.l.m, mt |-> e.l.mt, ip |-> e.l.ip, sp |-> e.l.sp, mk |-> e.l.mk]
 Observed(e) == [reply |-> e.o.reply, code |-> e.o.code, nlist |-> e.o.nlist, h |-> AsSet(e.o.h),
                 ipv |-> e.o.ipv, tag |-> e.o.tag]
 \* does the endpoint serve protocol 2026-07-28 at all?
